@@ -859,13 +859,38 @@ class Machine:
         body = proms[idx]
         self.fid += 1
         pf = Frame(fr.inst, body, self.fid)
-        # promoted bodies are straight-line
-        for b in body['blocks']:
+        # promoted bodies are straight-line; a call in them is a const fn (`RangeInclusive::new(lo, hi)`): followed when it is a
+        # primitive with a plain value
+        bi = 0
+        for _ in range(len(body['blocks']) + 1):
+            b = body['blocks'][bi]
             for s in b['s']:
                 self.stmt(cfg, pf, s)
-            if b['t']['k'] != 'return':
-                return Atom('promoted%d' % idx)
-        return self.read_path(cfg.st, (pf.fid, 0), [])
+            t = b['t']
+            if t['k'] == 'return':
+                return self.read_path(cfg.st, (pf.fid, 0), [])
+            if t['k'] == 'goto':
+                bi = t['t']
+                continue
+            if t['k'] == 'call' and t.get('dest') is not None and 't' in t:
+                f = t.get('f') or {}
+                names = [x for n_ in (f.get('rpath'), f.get('path')) if n_ for x in (n_, std_name(n_))]
+                h = None
+                for n_ in names:
+                    h = self.overrides.get(n_) or self.prims.get(n_)
+                    if h:
+                        break
+                if h is None:
+                    return Atom('promoted%d' % idx)
+                args = [self.operand(cfg, pf, a) for a in t['args']]
+                r = h(self, cfg, f, args, t)
+                if r is NotImplemented or isinstance(r, (Fork, CallThen, Outcome, list)):
+                    return Atom('promoted%d' % idx)
+                self.write_place(cfg, pf, t['dest'], r)
+                bi = t['t']
+                continue
+            return Atom('promoted%d' % idx)
+        return Atom('promoted%d' % idx)
 
     def len_sym(self, st, name):
         nm = 'len(%s)' % name
